@@ -9,6 +9,7 @@ import (
 	"math/rand/v2"
 	"runtime"
 	"sync"
+	"sync/atomic"
 	"testing"
 	"time"
 
@@ -117,6 +118,12 @@ func scenarios() map[string]func(seed uint64, nG, iters int) {
 	m["limit.AIMD"] = func(s uint64, g, n int) { hammer("limit.AIMD", s, g, n, limitOps(limit.NewAIMDLimit("x", 10, 0.9, 1, nil))) }
 	m["limit.Vegas"] = func(s uint64, g, n int) {
 		hammer("limit.Vegas", s, g, n, limitOps(limit.NewDefaultVegasLimitWithLimit("x", 10, nil, nil)))
+	}
+	m["limit.Vegas.probing"] = func(s uint64, g, n int) { // probe multiplier 1: the baseline is replaced on most samples
+		hammer("limit.Vegas.probing", s, g, n, limitOps(limit.NewVegasLimitWithRegistry("x", 3, nil, 10, 1, nil, nil, nil, nil, nil, 1, nil, nil)))
+	}
+	m["limit.Gradient.probing"] = func(s uint64, g, n int) { // probe interval 2: resets on every 2nd-4th sample
+		hammer("limit.Gradient.probing", s, g, n, limitOps(limit.NewGradientLimitWithRegistry("x", 20, 1, 200, 0.2, nil, 2, 2, nil, nil)))
 	}
 	m["limit.Gradient"] = func(s uint64, g, n int) {
 		hammer("limit.Gradient", s, g, n, limitOps(limit.NewGradientLimitWithRegistry("x", 20, 1, 200, 0.2, nil, 2, 50, nil, nil)))
@@ -371,6 +378,43 @@ func scenarios() map[string]func(seed uint64, nG, iters int) {
 			{"Start", func(*rand.Rand) { mr.Start() }},
 			{"Stop", func(*rand.Rand) { mr.Stop() }},
 		}
+	}
+	// a registry that stays started while new gauges / listeners keep being registered (the poller iterates the gauge
+	// table every 50us while RegisterGauge adds to it)
+	runningOps := func(mr core.MetricRegistry) []op {
+		var seq atomic.Int64
+		return []op{
+			{"RegisterGauge(new id)", func(*rand.Rand) {
+				mr.RegisterGauge(fmt.Sprintf("g.%d", seq.Add(1)), func() (float64, bool) { return 1, true })
+			}},
+			{"RegisterDistribution(new id)+AddSample", func(*rand.Rand) { mr.RegisterDistribution(fmt.Sprintf("d.%d", seq.Add(1))).AddSample(1) }},
+			{"RegisterTiming+AddSample", func(r *rand.Rand) { mr.RegisterTiming(fmt.Sprintf("t.%d", r.IntN(4))).AddSample(1) }},
+			{"RegisterCount+AddSample", func(r *rand.Rand) { mr.RegisterCount(fmt.Sprintf("c.%d", r.IntN(4))).AddSample(1) }},
+			{"Start(idempotent)", func(*rand.Rand) { mr.Start() }},
+		}
+	}
+	m["registry.gometrics.running"] = func(s uint64, g, n int) {
+		mr, err := gometrics.NewGoMetricsMetricRegistry(gom.NewRegistry(), "", "p", 50*time.Microsecond)
+		if err != nil {
+			panic(err)
+		}
+		mr.Start()
+		hammer("registry.gometrics.running", s, g, n/4+1, runningOps(mr))
+		mr.Stop()
+	}
+	m["registry.datadog.running"] = func(s uint64, g, n int) {
+		cl, err := statsd.NewWithWriter(nopWriter{}, statsd.WithoutTelemetry(), statsd.WithoutClientSideAggregation(), statsd.WithoutOriginDetection())
+		if err != nil {
+			panic(err)
+		}
+		mr, err := datadog.NewMetricRegistryWithClient(cl, "p", 50*time.Microsecond)
+		if err != nil {
+			panic(err)
+		}
+		mr.Start()
+		hammer("registry.datadog.running", s, g, n/4+1, runningOps(mr))
+		mr.Stop()
+		cl.Close()
 	}
 	m["registry.gometrics"] = func(s uint64, g, n int) {
 		mr, err := gometrics.NewGoMetricsMetricRegistry(gom.NewRegistry(), "", "p", 200*time.Microsecond)
